@@ -114,8 +114,12 @@ def case_body(case):
     raise ValueError("replay op " + op)
 
 
+EXTRA_SRC = ""       # source of fixture definitions every replay binary of this run must contain
+
+
 class ReplayCrate:
     def __init__(self, backend, name=None, extra_deps="", extra_src=""):
+        extra_src = extra_src or EXTRA_SRC
         self.backend = backend
         sc = common.scratch()
         self.name = name or ("replay-" + backend)
